@@ -1,13 +1,15 @@
 (* C16 — proofs, part 6: the guard of the table theorem is met by every pool of keys of the simple kinds
-   (nil, t, fixnums, characters, strings, symbols, vectors) whose references are consistent: on such keys
-   slip's eql is exactly Go's == on the key representation. *)
+   (nil, t, fixnums, characters, strings, symbols, vectors, and lists, which the table refuses) whose references
+   are consistent: on the hashable ones slip's eql is exactly Go's == on the key representation, and a list is
+   eql to nothing but itself. *)
 From Coq Require Import ZArith NArith List Bool Lia Arith.
 From C16 Require Import Model Spec Proofs Proofs2 Proofs4.
 Import ListNotations.
 Open Scope nat_scope.
 Open Scope list_scope.
 
-Definition nofloat_key (k : gokey) : bool := match k with KFlt _ _ _ | KUnhashable => false | _ => true end.
+Definition nofloat_key (k : gokey) : bool :=
+  match k with KFlt _ _ _ | KUnhashable => false | KRat _ d => (0 <? d)%Z | _ => true end.
 Lemma gokey_refl : forall k, nofloat_key k = true -> gokey_eqb k k = true.
 Proof.
   intros [] H; simpl in *; try discriminate; auto; try apply Z.eqb_refl; try apply N.eqb_refl; try apply lN_eqb_refl.
@@ -15,7 +17,8 @@ Proof.
 Qed.
 Lemma gokey_sym : forall a b, nofloat_key a = true -> nofloat_key b = true -> gokey_eqb a b = gokey_eqb b a.
 Proof.
-  intros [| |x|k m e|x|x|x|k1 w1|] [| |y|k' m' e'|y|y|y|k2 w2|] _ _; simpl; auto; try apply Z.eqb_sym; try apply N.eqb_sym; try apply lN_eqb_sym.
+  intros [| |x|k m e|x|x|x|x|n1 d1|k1 w1|] [| |y|k' m' e'|y|y|y|y|n2 d2|k2 w2|] _ _; simpl; auto;
+    try apply Z.eqb_sym; try apply N.eqb_sym; try apply lN_eqb_sym.
   - rewrite fkind_eqb_sym. f_equal. apply (dy_eqb_sym (m, e) (m', e')).
   - rewrite (N.eqb_sym k1 k2), (N.eqb_sym w1 w2). reflexivity.
 Qed.
@@ -28,32 +31,135 @@ Proof.
   - apply N.eqb_eq in H1, H2. subst. apply N.eqb_refl.
   - apply lN_eqb_eq in H1, H2. subst. apply lN_eqb_refl.
   - apply lN_eqb_eq in H1, H2. subst. apply lN_eqb_refl.
+  - apply Z.eqb_eq in H1, H2. subst. apply Z.eqb_refl.
+  - apply Z.eqb_eq in H1, H2. apply Z.eqb_eq. apply Z.ltb_lt in Ha, Hb, Hc.
+    apply (Z.mul_cancel_r _ _ d0); [lia|]. transitivity (n0 * d * d1)%Z; [nia|]. nia.
   - apply andb_true_iff in H1 as [A1 B1]. apply andb_true_iff in H2 as [A2 B2].
     apply N.eqb_eq in A1, A2, B1, B2. subst. rewrite !N.eqb_refl. reflexivity.
 Qed.
 
-Lemma simple_key_nofloat : forall r, simple_key (r_obj r) = true -> nofloat_key (gokey_of r) = true.
-Proof. intros [x w] H. destruct x; simpl in *; try discriminate; reflexivity. Qed.
+(* eql = Go's == (after HashTable.Key) on simple keys other than lists *)
+Definition is_lst (x : obj) : bool := match x with Lst _ => true | _ => false end.
+Lemma int64_sep : forall a b, int64_ok a = true -> negb (int64_ok b) = true -> (a =? b)%Z = false /\ (b =? a)%Z = false.
+Proof.
+  intros a b Ha Hb. apply negb_true_iff in Hb.
+  split; apply Z.eqb_neq; intro E; subst; congruence.
+Qed.
+Definition rat_key_ok (n d : Z) : bool := ((0 <? d) && (Z.gcd n d =? 1) && negb (d =? 1))%Z.
+Lemma rat_key_facts : forall n d, rat_key_ok n d = true -> (0 < d /\ Z.gcd n d = 1 /\ d <> 1)%Z.
+Proof.
+  intros n d H. unfold rat_key_ok in H. apply andb_true_iff in H as [H H3].
+  apply andb_true_iff in H as [H1 H2]. apply Z.ltb_lt in H1. apply Z.eqb_eq in H2. apply negb_true_iff in H3.
+  apply Z.eqb_neq in H3. auto.
+Qed.
+Lemma rat_not_int : forall n d a, rat_key_ok n d = true -> ((a * d =? n) = false /\ (n =? a * d) = false)%Z.
+Proof.
+  intros n d a H. destruct (rat_key_facts n d H) as (Hd & Hg & H1).
+  split; apply Z.eqb_neq; intro E; apply H1; apply (gcd_one_divides n d a Hd Hg); lia.
+Qed.
 
-(* eql = Go's == on simple keys *)
 Lemma eql_is_gokey : forall a b, simple_key (r_obj a) = true -> simple_key (r_obj b) = true ->
+  is_lst (r_obj a) = false -> is_lst (r_obj b) = false ->
   consistent2 a b -> const_words a b -> eql_m a b = gokey_eqb (gokey_of a) (gokey_of b).
 Proof.
-  intros [x w] [y v] Sa Sb C K. unfold consistent2, const_words, eql_m, eq_m, gokey_of in *. simpl in *.
-  destruct x; simpl in Sa; try discriminate; destruct y; simpl in Sb; try discriminate; simpl; auto;
-    try (rewrite orb_false_r; reflexivity).
+  intros [x w] [y v] Sa Sb La Lb C K. unfold consistent2, const_words, eql_m, eq_m, gokey_of in *.
+  cbn [r_obj r_word] in *.
+  destruct x; cbn [simple_key is_lst] in Sa, La; try discriminate;
+    destruct y; cbn [simple_key is_lst] in Sb, Lb; try discriminate;
+    cbn [same_gotype eql_s is_number gokey_eqb andb orb];
+    try reflexivity; try (rewrite orb_false_r; reflexivity).
   - (* Nil *) rewrite orb_false_r. apply N.eqb_eq. apply K; auto.
   - (* Tru *) rewrite orb_false_r. apply N.eqb_eq. apply K; auto.
-  - (* Fix *) destruct (Z.eqb_spec z z0) as [->|N]; [apply orb_true_r|]. rewrite orb_false_r.
+  - (* Fix, Fix *) unfold same_m. destruct (Z.eqb_spec z z0) as [->|N]; [apply orb_true_r|]. rewrite orb_false_r.
     apply N.eqb_neq. intro E. specialize (C eq_refl E). inversion C. contradiction.
+  - (* Fix, Big *) unfold same_m. apply (int64_sep z z0 Sa Sb).
+  - (* Fix, Rat *) unfold same_m. apply (rat_not_int n d z Sb).
+  - (* Big, Fix *) unfold same_m. apply (int64_sep z0 z Sb Sa).
+  - (* Big, Big *) unfold same_m. destruct (Z.eqb_spec z z0) as [->|N]; [apply orb_true_r|]. rewrite orb_false_r.
+    apply N.eqb_neq. intro E. specialize (C eq_refl E). inversion C. contradiction.
+  - (* Big, Rat *) unfold same_m. apply (rat_not_int n d z Sb).
+  - (* Rat, Fix *) unfold same_m. apply (rat_not_int n d z Sa).
+  - (* Rat, Big *) unfold same_m. apply (rat_not_int n d z Sa).
+  - (* Rat, Rat *) unfold same_m. destruct (Z.eqb_spec (n * d0) (n0 * d)) as [E0|N]; [apply orb_true_r|]. rewrite orb_false_r.
+    apply N.eqb_neq. intro E. specialize (C eq_refl E). inversion C. subst. contradiction.
   - (* Chr *) destruct (N.eqb_spec c c0) as [->|N]; [apply orb_true_r|]. rewrite orb_false_r.
     apply N.eqb_neq. intro E. specialize (C eq_refl E). inversion C. contradiction.
   - (* Str *) destruct (lN_eqb s s0) eqn:E0; [apply orb_true_r|]. rewrite orb_false_r.
     apply N.eqb_neq. intro E. specialize (C eq_refl E). inversion C. subst. rewrite lN_eqb_refl in E0. discriminate.
 Qed.
 
+(* a list is eql to nothing but itself (the same slice): eql is eq as soon as one side is a list *)
+Lemma eql_lst_l : forall a b, is_lst (r_obj a) = true -> eql_m a b = eq_m a b.
+Proof.
+  intros a b L. unfold eql_m. assert (E : eql_s (r_obj a) (r_obj b) = false) by (destruct (r_obj a); try discriminate; reflexivity).
+  rewrite E. apply orb_false_r.
+Qed.
+Lemma eql_lst_r : forall a b, simple_key (r_obj a) = true -> is_lst (r_obj b) = true -> eql_m a b = eq_m a b.
+Proof.
+  intros a b S L. unfold eql_m.
+  assert (E : eql_s (r_obj a) (r_obj b) = false).
+  { destruct (r_obj b); try discriminate. destruct (r_obj a); simpl in S; try discriminate; reflexivity. }
+  rewrite E. apply orb_false_r.
+Qed.
+Lemma eq_lst_other : forall a b, is_lst (r_obj a) = true -> is_lst (r_obj b) = false -> eq_m a b = false /\ eq_m b a = false.
+Proof.
+  intros [x w] [y v] La Lb. unfold eq_m. simpl in *. destruct x; try discriminate. destruct y; try discriminate; simpl; auto.
+Qed.
+Lemma simple_hashable : forall a, simple_key (r_obj a) = true -> hashable (gokey_of a) = negb (is_lst (r_obj a)).
+Proof. intros [x w] S. destruct x; cbn [r_obj simple_key gokey_of hashable is_lst negb] in *; try discriminate; reflexivity. Qed.
+
 Lemma forallb_seq_intro : forall (f : nat -> bool) len, (forall i, i < len -> f i = true) -> forallb f (seq 0 len) = true.
 Proof. intros f len H. apply forallb_forall. intros i Hi. apply in_seq in Hi. apply H. lia. Qed.
+
+(* the test on references: eql of two simple keys of a consistent pool *)
+Section SimpleRefs.
+  Variables a b c : ref.
+  Hypothesis Sa : simple_key (r_obj a) = true.
+  Hypothesis Sb : simple_key (r_obj b) = true.
+  Hypothesis Sc : simple_key (r_obj c) = true.
+  Hypothesis Cab : consistent2 a b /\ const_words a b.
+  Hypothesis Cba : consistent2 b a /\ const_words b a.
+  Hypothesis Cbc : consistent2 b c /\ const_words b c.
+  Hypothesis Cac : consistent2 a c /\ const_words a c.
+  Let nl (r : ref) := is_lst (r_obj r) = false.
+  Lemma key_nofloat : forall r, simple_key (r_obj r) = true -> is_lst (r_obj r) = false -> nofloat_key (gokey_of r) = true.
+  Proof.
+    intros [x w] S L. destruct x; cbn [r_obj simple_key is_lst gokey_of nofloat_key] in *; try discriminate; try reflexivity.
+    apply andb_true_iff in S as [S _]. apply andb_true_iff in S as [S _]. exact S.
+  Qed.
+  Lemma simple_sep : is_lst (r_obj a) = negb (is_lst (r_obj b)) -> eql_m a b = false.
+  Proof.
+    intro D. destruct (is_lst (r_obj a)) eqn:La; simpl in D.
+    - rewrite (eql_lst_l a b La). apply (eq_lst_other a b La). destruct (is_lst (r_obj b)); auto; discriminate.
+    - symmetry in D. apply negb_false_iff in D. rewrite (eql_lst_r a b Sa D). apply (eq_lst_other b a D La).
+  Qed.
+  Lemma simple_sym : eql_m a b = eql_m b a.
+  Proof.
+    destruct (is_lst (r_obj a)) eqn:La.
+    - rewrite (eql_lst_l a b La), (eql_lst_r b a Sb La). apply eq_m_sym.
+    - destruct (is_lst (r_obj b)) eqn:Lb.
+      + rewrite (eql_lst_r a b Sa Lb), (eql_lst_l b a Lb). apply eq_m_sym.
+      + rewrite (eql_is_gokey a b Sa Sb La Lb (proj1 Cab) (proj2 Cab)), (eql_is_gokey b a Sb Sa Lb La (proj1 Cba) (proj2 Cba)).
+        apply gokey_sym; apply key_nofloat; auto.
+  Qed.
+  Lemma simple_trans : eql_m a b = true -> eql_m b c = true -> eql_m a c = true.
+  Proof.
+    intros H1 H2.
+    destruct (is_lst (r_obj a)) eqn:La; destruct (is_lst (r_obj b)) eqn:Lb;
+      try (rewrite simple_sep in H1 by (rewrite La, Lb; reflexivity); discriminate).
+    - (* lists: eq all the way *)
+      destruct (is_lst (r_obj c)) eqn:Lc.
+      + rewrite (eql_lst_l a b La) in H1. rewrite (eql_lst_l b c Lb) in H2. rewrite (eql_lst_l a c La).
+        apply (eq_m_trans a b c H1 H2).
+      + rewrite (eql_lst_l b c Lb) in H2. rewrite (proj1 (eq_lst_other b c Lb Lc)) in H2. discriminate.
+    - destruct (is_lst (r_obj c)) eqn:Lc.
+      + rewrite (eql_lst_r b c Sb Lc) in H2. rewrite (proj2 (eq_lst_other c b Lc Lb)) in H2. discriminate.
+      + rewrite (eql_is_gokey a b Sa Sb La Lb (proj1 Cab) (proj2 Cab)) in H1.
+        rewrite (eql_is_gokey b c Sb Sc Lb Lc (proj1 Cbc) (proj2 Cbc)) in H2.
+        rewrite (eql_is_gokey a c Sa Sc La Lc (proj1 Cac) (proj2 Cac)).
+        apply (gokey_trans _ _ _ (key_nofloat a Sa La) (key_nofloat b Sb Lb) (key_nofloat c Sc Lc) H1 H2).
+  Qed.
+End SimpleRefs.
 
 Theorem simple_pool_ok : forall pool,
   simple_pool pool = true ->
@@ -65,32 +171,32 @@ Proof.
   { intros i a H. apply nth_error_In in H. split; auto. unfold simple_pool in S. rewrite forallb_forall in S. auto. }
   assert (Nth : forall i, i < List.length pool -> exists a, nth_error pool i = Some a).
   { intros i Hi. destruct (nth_error pool i) eqn:E; eauto. apply nth_error_None in E. lia. }
-  assert (Coh : forall i j, i < List.length pool -> j < List.length pool -> same_key pool i j = pool_test 1 pool i j).
-  { intros i j Hi Hj. destruct (Nth i Hi) as [a Ea]. destruct (Nth j Hj) as [b Eb].
-    unfold same_key, key_at, pool_test. rewrite Ea, Eb. simpl.
-    destruct (Sk i a Ea) as [Ia Sa]. destruct (Sk j b Eb) as [Ib Sb]. destruct (C a b Ia Ib) as [C1 C2].
-    symmetry. apply eql_is_gokey; auto. }
-  assert (KF : forall i, i < List.length pool -> exists a, nth_error pool i = Some a /\ nofloat_key (gokey_of a) = true).
-  { intros i Hi. destruct (Nth i Hi) as [a Ea]. exists a. split; auto. apply simple_key_nofloat. apply (Sk i a Ea). }
-  unfold pool_ok. apply andb_true_iff. split; [apply andb_true_iff; split|].
-  - (* hashable *) unfold pool_hashable. apply forallb_seq_intro. intros i Hi. destruct (KF i Hi) as (a & Ea & Ka).
-    unfold key_ok, key_at. rewrite Ea. simpl. destruct (gokey_of a); simpl in *; try discriminate; reflexivity.
+  assert (HK : forall i a, nth_error pool i = Some a -> key_hashable pool i = negb (is_lst (r_obj a))).
+  { intros i a Ea. unfold key_hashable, key_ok, key_at. rewrite Ea. simpl. rewrite (simple_hashable a (proj2 (Sk i a Ea))).
+    destruct (is_lst (r_obj a)); reflexivity. }
+  unfold pool_ok. apply andb_true_iff. split.
   - (* coherent *) unfold pool_coherent. apply forallb_seq_intro. intros i Hi. apply forallb_seq_intro. intros j Hj.
-    rewrite Coh by assumption. apply eqb_reflx.
-  - (* the test is an equivalence on the pool: through Go's == *)
+    destruct (Nth i Hi) as [a Ea]. destruct (Nth j Hj) as [b Eb].
+    destruct (Sk i a Ea) as [Ia Sa]. destruct (Sk j b Eb) as [Ib Sb]. destruct (C a b Ia Ib) as [C1 C2].
+    rewrite (HK i a Ea), (HK j b Eb). unfold pool_test, same_key, key_at. rewrite Ea, Eb. simpl.
+    destruct (is_lst (r_obj a)) eqn:La; destruct (is_lst (r_obj b)) eqn:Lb; simpl; auto.
+    + rewrite (simple_sep a b Sa) by (rewrite La, Lb; reflexivity). reflexivity.
+    + rewrite (simple_sep a b Sa) by (rewrite La, Lb; reflexivity). reflexivity.
+    + rewrite (eql_is_gokey a b Sa Sb La Lb C1 C2). apply eqb_reflx.
+  - (* the test is an equivalence on the pool *)
     unfold pool_equiv. apply andb_true_iff. split; [apply andb_true_iff; split|].
-    + apply forallb_seq_intro. intros i Hi. rewrite <- Coh by assumption. destruct (KF i Hi) as (a & Ea & Ka).
-      unfold same_key, key_at. rewrite Ea. simpl. apply gokey_refl. assumption.
+    + apply forallb_seq_intro. intros i Hi. destruct (Nth i Hi) as [a Ea]. unfold pool_test. rewrite Ea. simpl.
+      unfold eql_m. rewrite eq_m_refl. reflexivity.
     + apply forallb_seq_intro. intros i Hi. apply forallb_seq_intro. intros j Hj.
-      rewrite <- !Coh by assumption. destruct (KF i Hi) as (a & Ea & Ka). destruct (KF j Hj) as (b & Eb & Kb).
-      unfold same_key, key_at. rewrite Ea, Eb. simpl. rewrite (gokey_sym _ _ Ka Kb). apply eqb_reflx.
+      destruct (Nth i Hi) as [a Ea]. destruct (Nth j Hj) as [b Eb]. unfold pool_test. rewrite Ea, Eb. simpl.
+      destruct (Sk i a Ea) as [Ia Sa]. destruct (Sk j b Eb) as [Ib Sb].
+      rewrite (simple_sym a b Sa Sb (C a b Ia Ib) (C b a Ib Ia)). apply eqb_reflx.
     + apply forallb_seq_intro. intros i Hi. apply forallb_seq_intro. intros j Hj. apply forallb_seq_intro. intros k Hk.
-      rewrite <- !Coh by assumption. destruct (KF i Hi) as (a & Ea & Ka). destruct (KF j Hj) as (b & Eb & Kb).
-      destruct (KF k Hk) as (c & Ec & Kc).
-      unfold same_key, key_at. rewrite Ea, Eb, Ec. simpl.
-      destruct (gokey_eqb (gokey_of a) (gokey_of b)) eqn:E1; simpl; auto.
-      destruct (gokey_eqb (gokey_of b) (gokey_of c)) eqn:E2; simpl; auto.
-      apply (gokey_trans _ _ _ Ka Kb Kc E1 E2).
+      destruct (Nth i Hi) as [a Ea]. destruct (Nth j Hj) as [b Eb]. destruct (Nth k Hk) as [c Ec].
+      unfold pool_test. rewrite Ea, Eb, Ec. simpl.
+      destruct (Sk i a Ea) as [Ia Sa]. destruct (Sk j b Eb) as [Ib Sb]. destruct (Sk k c Ec) as [Ic Sc].
+      destruct (eql_m a b) eqn:E1; simpl; auto. destruct (eql_m b c) eqn:E2; simpl; auto.
+      apply (simple_trans a b c Sa Sb Sc (C a b Ia Ib) (C b c Ib Ic) (C a c Ia Ic) E1 E2).
 Qed.
 
 Theorem table_is_map_on_simple_keys : forall pool ops,
